@@ -14,8 +14,11 @@
    * torch.save / torch.load: an opaque pair `enc` / `dec` on the pickled payload.
      The zip/pickle byte format is torch's; nothing here says anything about it
      except through the two hypotheses stated in Proofs/IOProofs.v and Props/C11.v;
-   * the fresh computation of materialize (statistics, converter call,
-     _update_col_stats) is the value `fresh`; the converter is the function `conv`
+   * the fresh computation of materialize (statistics -- computed from the
+     DataFrame, or the ones SUPPLIED through `col_stats=`, which is part of the
+     configuration fixed along a history --, converter call, _update_col_stats)
+     is the value `fresh`; both ways of obtaining the statistics continue with
+     the same steps 2-4 and the same `save` when a path is given; the converter is the function `conv`
      of the statistics dict it holds a reference to (its other arguments are the
      Dataset's configuration, fixed along a history). *)
 From Coq Require Import List Arith Bool String.
